@@ -832,6 +832,13 @@ package util
 //@      | && cc.Deletes[NodeHash(oldNode, heapof(OriginTracker.Origin))] == oldNode                                                                                     #replacement-registered-and-old-marked-dead
 //@   ensures oldNode != nil && old(NodeHash(oldNode, heapof(OriginTracker.Origin)) in cc.Changes) && NodeHash(oldNode, heapof(OriginTracker.Origin)) != NodeHash(newNode, heapof(OriginTracker.Origin))
 //@      | ==> !(NodeHash(oldNode, heapof(OriginTracker.Origin)) in cc.Changes)                                                                                            #intermediate-node-forgotten
+// a chain W -> A -> B within one round collapses to one change W -> B: the change keeps the node the
+// round started from as its Old (so that "back where the round started" is recognised for W only, and
+// an intermediate state that comes back, A -> B -> A, is still saved)
+//@   ensures oldNode != nil && old(NodeHash(oldNode, heapof(OriginTracker.Origin)) in cc.Changes) && NodeHash(oldNode, heapof(OriginTracker.Origin)) != NodeHash(newNode, heapof(OriginTracker.Origin))
+//@      | && (old(cc.Changes[NodeHash(oldNode, heapof(OriginTracker.Origin))].Old) == nil || NodeHB(newNode, heapof(OriginTracker.Origin)) != NodeHB(old(cc.Changes[NodeHash(oldNode, heapof(OriginTracker.Origin))].Old), heapof(OriginTracker.Origin)))
+//@      | ==> NodeHash(newNode, heapof(OriginTracker.Origin)) in cc.Changes && cc.Changes[NodeHash(newNode, heapof(OriginTracker.Origin))].New == newNode
+//@      | && cc.Changes[NodeHash(newNode, heapof(OriginTracker.Origin))].Old == old(cc.Changes[NodeHash(oldNode, heapof(OriginTracker.Origin))].Old)                              #collapsed-change-keeps-the-round-start-node
 //@   ensures oldNode != nil && NodeHash(oldNode, heapof(OriginTracker.Origin)) != NodeHash(newNode, heapof(OriginTracker.Origin)) ==> !(NodeHash(oldNode, heapof(OriginTracker.Origin)) in cc.Changes)      #replaced-node-is-not-a-change
 //@   ensures ChangesWF(cc)
 //@   ensures old(DisjCD(cc)) && (oldNode == nil || NodeHash(oldNode, heapof(OriginTracker.Origin)) != NodeHash(newNode, heapof(OriginTracker.Origin))) ==> DisjCD(cc)      #changes-and-deletes-stay-disjoint
